@@ -20,8 +20,11 @@
         ended in a token response differs from the model (RaceStrict.e2e_outcomes)
    check_race_group_x is check_race_group over a storage semantics (RaceStrict.sem_of: the lenient storage
    of Prog.exec, or the STRICT one whose Delete of something absent is an error) plus the follow-ups.
+   check_mixed_group (Model/RaceMixed.v): racing CIBA polls with a verdict of the embedder's validation PER POLL, followed
+   by an approved poll; mo_tok = per racing poll, then the follow-up: answered with tokens.  Codes 1 / 3 (token responses),
+   2 (call sequences), 5, 6 (schedules = RaceMixed.mx_schedules), 7 as above.
      2^30  the option list does not build *)
-From Verif Require Import Base Scope Types Prog Pop Token Authorize System Config Race RaceUri RaceStrict.
+From Verif Require Import Base Scope Types Prog Pop Token Authorize System Config Race RaceUri RaceStrict RaceMixed.
 Local Open Scope N_scope.
 
 Record raceobs := mkRaceObs {
@@ -131,5 +134,52 @@ Definition model_race_x (strict : bool) (s : racescn) (k : N) (sched : list N) (
   | Some su => let sc := map N.to_nat sched in let ex := sem_of strict in
                Some (outcomes_x ex su (N.to_nat k) sc, logs_N (race_logs_x ex su (N.to_nat k) sc),
                      race_window_count su (N.to_nat k) sc, e2e_outcomes ex rev_order su (N.to_nat k) sc)
+  | None => None
+  end.
+
+(* ---------------------------------------------------------------------------------- *)
+(* racing CIBA polls with mixed verdicts + an approved follow-up poll (Model/RaceMixed.v) *)
+Record mixedobs := mkMixedObs {
+  mo_sched : list N;
+  mo_tok : list bool;              (* per racing poll, then the follow-up poll: answered with tokens *)
+  mo_logs : list (list N)          (* per racing poll: ckind_ix of its storage calls, in order *)
+}.
+Record mixedgroup := mkMixedGroup {
+  mg_named : racescn;
+  mg_scn : racescn;
+  mg_verdicts : list ba_reply;     (* the embedder's answer to poll i *)
+  mg_exhaustive : bool;
+  mg_strict : bool;
+  mg_obs : list mixedobs
+}.
+
+Definition check_mixed_obs (ex : storage_sem) (su named : racesetup) (vs : list ba_reply) (o : mixedobs) : N :=
+  let sched := map N.to_nat (mo_sched o) in
+  let m_tok := mx_outcomes ex su vs sched in
+  let m_logs := logs_N (mx_logs ex su vs sched) in
+  if negb (live su) then 5
+  else if negb (Nat.eqb (count_true m_tok) (count_true (mo_tok o))) then 1
+  else if negb (list_eqb Bool.eqb m_tok (mo_tok o)) then 3
+  else if negb (list_eqb (list_eqb N.eqb) m_logs (mo_logs o)) then 2
+  else if negb (andb (list_eqb Bool.eqb (mx_outcomes ex named vs sched) m_tok)
+                     (list_eqb (list_eqb N.eqb) (logs_N (mx_logs ex named vs sched)) m_logs)) then 7
+  else 0.
+
+Definition check_mixed_group (g : mixedgroup) : list N :=
+  match setup (mg_scn g), setup (mg_named g) with
+  | Some su, Some named =>
+      let vs := mg_verdicts g in
+      let res := map (check_mixed_obs (sem_of (mg_strict g)) su named vs) (mg_obs g) in
+      let scheds := map (fun o => map N.to_nat (mo_sched o)) (mg_obs g) in
+      if andb (mg_exhaustive g) (negb (list_eqb (list_eqb Nat.eqb) scheds (mx_schedules su vs)))
+      then match res with [] => [] | _ :: r => 6 :: r end
+      else res
+  | _, _ => map (fun _ => 2 ^ 30) (mg_obs g)
+  end.
+
+Definition model_mixed (strict : bool) (s : racescn) (vs : list ba_reply) (sched : list N) :=
+  match setup s with
+  | Some su => let sc := map N.to_nat sched in let ex := sem_of strict in
+               Some (mx_outcomes ex su vs sc, logs_N (mx_logs ex su vs sc), mx_counts su vs)
   | None => None
   end.
